@@ -40,7 +40,7 @@ add('C06', 'exploration',
 
 add('C13', 'fault_enumeration',
     'Dropout faults (all-zero accelerometer/magnetometer/gyroscope rows) are enumerated over a grid of sensor subsets x start positions x lengths for every recursive filter x architecture (streaming update method and batch constructor) on a motion history with a kick, plus seeded random patterns with a second fault kind in the window. Safety (finite real unit quaternion or ValueError, for that sample and every later one) is checked at every step; recovery is checked against the twin run of the same filter on the same history without the dropouts.',
-    'Recovery tolerances/tails are pinned constants per filter and gain set (calibrated on the repaired tree) combined with a relative criterion (half of the peak lag shed); Fourati gets the safety oracle only; LinAlgError counts as breakdown, not refusal; filters already invalid without dropouts are left to C03.',
+    'Recovery tolerances/tails are pinned constants per filter and gain set (calibrated on the repaired tree) combined with a relative criterion (half of the peak lag shed); a carry-on oracle decides the clause "skips its correction" (through an acc/mag dropout with a valid gyroscope a filter that refused nothing moves at least half as far as the smaller of gyroscope dead reckoning and its dropout-free twin; EKF, which returns the prior, is exempt); Fourati gets the safety oracle only; LinAlgError counts as breakdown, not refusal; filters already invalid without dropouts are left to C03.',
     'deterministic simulation: enumerated + seeded dropout injection on the sensor bus, twin-run recovery oracle, replay files', 'DESIGN.md section 2 C13')
 
 add('C03', 'exploration',
@@ -54,18 +54,18 @@ add('C08', 'exploration',
     'deterministic simulation: time-stepping nodes vs closed-form truth of simulated time, dropout injection for the dead-reckoning clause', 'DESIGN.md section 2 C08')
 
 add('C15', 'exploration',
-    'Seeded search over operation histories and calendar faults: up to 40 operations (construct with float/int/date/None dates, magnetic_field with explicit, kept or omitted date, reset_coefficients, reads) on a pool of 1-3 long-lived WMM objects, interleaved with simulated calendar jumps across epoch and rounding boundaries; every answer is compared (1e-9) with a single-copy reference model whose expected elements come from a fresh object through one canonical route, plus step invariants (H/F/I/D from X/Y/Z, ENU vs NED twin, +-180, poles, equator and prime meridian).',
+    'Seeded search over operation histories and calendar faults: up to 40 operations (construct with float/int/date/None dates, magnetic_field with explicit, kept or omitted date, reset_coefficients, reset_date, omitted height, reads of the elements and of geodetic_vector, a second constructor for the same date and place in the other frame) on a pool of 1-3 long-lived WMM objects, interleaved with simulated calendar jumps across epoch and rounding boundaries; every answer is compared (1e-9) with a single-copy reference model whose expected elements come from a fresh object through one canonical route, plus step invariants (H/F/I/D from X/Y/Z, ENU vs NED twin, +-180, poles, equator and prime meridian).',
     'Reference is the package\'s own evaluator on a fresh object (decides path/history independence, not absolute correctness, which is C14); calendar seam is a datetime shim bound into ahrs.utils.wmm at import; no I/O fault injected.',
     'deterministic simulation: operation histories against a reference model, calendar clock seam with jump faults', 'DESIGN.md section 2 C15')
 
 add('C12', 'fault_enumeration',
     'Partial claim (the part with a fault pattern in it): a recorder stores the attitude sequence of a turning body through a lossy link with loss (row -> NaN) and signflip (row -> -row) faults; every interior loss mask for records of up to 10 (quick) / 12 (thorough) rows x 4 spin rates x 5 sign-flip patterns is enumerated, plus seeded long records; the real QuaternionArray.slerp_nan / remove_jumps repair is compared with a reference shortest-arc constant-speed SLERP (1e-5 rad), valid rows must come back bit-identical up to sign, loss-free records pass through, and after remove_jumps no sign jump remains.',
-    'Arbitrary endpoint pairs / weight vectors of the free slerp() function are input generation and not claimed; first and last rows are never lost; spin below pi rad per tick.',
+    'Arbitrary endpoint pairs / weight vectors of the free slerp() function are input generation and not claimed (both package SLERPs are driven with the weights of each gap plus the end weights 0 and 1); the last row is never lost, leading lost rows are not judged; records may be loaded into an existing object through from_DCM and may be hit by a second burst of losses after the first repair; spin below pi rad per tick.',
     'deterministic simulation: enumerated loss/signflip fault masks on a recorder link, reference-model comparison', 'DESIGN.md section 2 C12')
 
 add('C19', 'exploration',
     'Weakest fit, stated as such: the sensor-bus pipeline with every estimator class streamed and batch-constructed on shared zero-copy arrays under a seeded interleaving, with a bus monitor digesting every caller-owned buffer after every task step, plus a toolbox task that applies ~200 public callables (found by introspection, bound to live data: estimates, samples, matrices, angles in degrees/radians, normalised or not, scalars/0-d/1-d/N-row arrays) twice each with the RNG restored: argument bytes must be unchanged and results identical.',
-    'The verdict of one call is a before/after digest; the simulation decides which buffers are live and shared. Callables the binder cannot serve or that reject the generated arguments are listed/counted in the evidence, not counted as covered; inplace=True options are not exercised.',
+    'The verdict of one call is a before/after digest; the simulation decides which buffers are live and shared. Callables the binder cannot serve or that reject the generated arguments are listed/counted in the evidence, not counted as covered; inplace=True options are not exercised; update methods of the classes without estimator state are called twice with a disturbing call (other samples, explicit dt, other method) in between; a run whose event log differs when executed again is a violation (repeatability is the subject).',
     'deterministic simulation: shared-buffer monitor under a seeded scheduler + introspected toolbox task on live data', 'DESIGN.md section 2 C19')
 
 add('C05', 'exploration',
